@@ -39,6 +39,11 @@ def units(tier, seed):
         out += _g.pdag_units("pdag", 5, 512)
         out += [{"stage": "dag", "p": 6, "codes": c, "labs": ["bin", "cancel"]} for c in split_list(_g.sparse_codes(6, 5, (1, 2)), 128)]
         out += [{"stage": "pdag", "p": 6, "codes": c} for c in split_list(_g.sparse_codes(6, 4, (1, 2, 3)), 64)]
+    # wide graphs (10 nodes, indices >= 8): every DAG / PDAG with <= 2 edges, targeted colliders mixing indices below and above 8
+    W = _g.WIDE_P
+    out += [{"stage": "dag", "p": W, "codes": c, "labs": ["bin"]} for c in split_list(_g.wide_sparse_codes("dag"), 8)]
+    out += [{"stage": "pdag", "p": W, "codes": c} for c in split_list(_g.wide_sparse_codes("pdag"), 16)]
+    out.append({"stage": "dag", "p": W, "codes": [G.encode(W, ch, [0] * W) for ch in _g.wide_targeted()], "labs": ["bin", "generic"]})
     return out
 
 
@@ -151,7 +156,10 @@ def run_unit(unit):
     elif st == "dag":
         labs = unit.get("labs") or (LABS if p <= 4 else ("bin", "cancel"))
         for code in unit["codes"]:
-            for lab in labs:
+            labs_here = labs
+            if p <= 4 and not unit.get("labs"):
+                labs_here = tuple(labs) + tuple(_g.sign_labs(p, G.decode(p, code)[0], cap=64 if p <= 3 else 8))
+            for lab in labs_here:
                 res = check_dag(p, code, lab)
                 if res is None:
                     continue
@@ -200,10 +208,10 @@ def replay(kind, case):
 def describe(tier, seed):
     return {
         "technique": "exhaustive small-scope enumeration of DAGs/PDAGs on the real code vs brute-force (skeleton, v-structure) grouping",
-        "rule": "mec (with and without the chain shortcut) on every labelled DAG with p<=4 under 5 weight labelings (quick: plus 5-node DAGs "
+        "rule": "mec (with and without the chain shortcut) on every labelled DAG with p<=4 under 5 weight labelings and +-1 sign assignments (quick: plus 5-node DAGs "
                 "with <=4 edges; thorough: all 29,281 DAGs at p=5, 6-node DAGs with <=5 edges); all_dags on every PDAG with acyclic "
                 "directed part (p<=4 quick, p=5 and sparse p=6 thorough); is_consistent_extension(G,P) for every DAG G (p<=3), every G "
-                "with P's skeleton or a skeleton one edge away (p=4), every G with P's skeleton (p>=5); chains to p=8 (quick) / 12 (thorough). "
+                "with P's skeleton or a skeleton one edge away (p=4), every G with P's skeleton (p>=5); chains to p=8 (quick) / 12 (thorough); wide graphs: every 10-node DAG / PDAG with <=2 edges and 80 targeted colliders mixing node indices below and above 8. "
                 "non-trivial: class size / extension count != 1",
         "exhaustive": True,
         "bounds": {"p_exhaustive": 5 if tier == "thorough" else 4, "chains_to": 12 if tier == "thorough" else 8},
